@@ -56,7 +56,8 @@ def run(ctx: Ctx) -> None:
         sgn = torch.randint(0, 2, t.shape, generator=g).to(t.dtype) * 2 - 1
         return t * (1 + eps * sgn)
 
-    def rounding_close(a: torch.Tensor, b: torch.Tensor, ref: Any, allow: float, dt: torch.dtype, f32_internal: bool = False) -> bool:
+    def rounding_close(a: torch.Tensor, b: torch.Tensor, ref: Any, allow: float, dt: torch.dtype, f32_internal: bool = False,
+                       floor: float = 0.0) -> bool:
         """`a` (compiled) agrees with `b` (eager) to float rounding.  Directly within the dtype's tolerance; or - for
         ill-conditioned results (e.g. the input gradient of a normalisation, a difference of nearly equal terms), where
         fused kernels legitimately round intermediates differently - judged against the float64 evaluation `ref` of the
@@ -72,9 +73,12 @@ def run(ctx: Ctx) -> None:
             # `allow` = how much eager's own result moves when its inputs are perturbed at rounding level (float32 level for
             # callables that compute internally in float32, a few float64 ulps otherwise): the conditioning of this result.
             # A gradient that is (nearly) zero by cancellation or saturation has no meaningful relative scale of its own.
+            # `floor`: the natural size of the terms a gradient is made of (upstream gradient / input scale); a gradient
+            # that vanishes identically (layer_norm over two elements: the output is the constant +-1) still carries the
+            # rounding of those terms
             if allow is None:
                 return False
-            scale = max(float(b.double().abs().max()), 1e-30)
+            scale = max(float(b.double().abs().max()), floor, 1e-30)
             return float((a.double() - b.double()).abs().max()) <= TOL["torch.float32" if f32_internal else "torch.float64"] * scale + 8 * allow
         if ref is None or ref.shape != a.shape:
             return False
@@ -159,8 +163,11 @@ def run(ctx: Ctx) -> None:
                 if not rounding_close(got[0], want[0], ref[0], allow[0], dt, f32i):
                     ctx.violation(f"C20:{op}:output", "compiled output differs from eager", key,
                                   float((got[0].double() - want[0].double()).abs().max()))
+                rms_ = [float(v.double().pow(2).mean().sqrt()) for v in base.values()
+                        if torch.is_tensor(v) and v.is_floating_point() and v.numel()]
+                gfloor = 4.0 * max(1.0, 1.0 / max(min(rms_), 1e-6)) if rms_ else 4.0
                 for n, a, b, r64, al in zip(case.diff, got[1], want[1], ref[1], allow[1]):
-                    if (a is None) != (b is None) or (a is not None and not rounding_close(a, b, r64, al, dt, f32i)):
+                    if (a is None) != (b is None) or (a is not None and not rounding_close(a, b, r64, al, dt, f32i, floor=gfloor)):
                         ctx.violation(f"C20:{op}:grad:{n}", "compiled gradient differs from eager", {**key, "wrt": n},
                                       None if a is None or b is None else float((a.double() - b.double()).abs().max()))
 
